@@ -370,6 +370,11 @@ def run_case(case):
                 v('release-not-transmitted', repr([p['kind'] for p in s2c][-5:]))
             elif not isinstance(exc, exceptions.AssociationReleasedError):
                 v('release-not-surfaced-at-requestor', 'user saw %r' % (exc,))
+            elif not aborts_c and 'A-RELEASE-RP' not in [p['kind'] for p in c2s]:
+                # the requesting context manager was left through an error (the release error):
+                # that aborts the association - the peer must see it end, not a silent drop
+                v('exceptional-exit-did-not-abort point=after-peer-release',
+                  'client sent %r after the A-RELEASE-RQ' % [p['kind'] for p in c2s][-4:])
         elif kind == 'exit-exception':
             if not isinstance(exc, Boom):
                 v('user-exception-replaced', 'user code raised Boom, context manager raised %r'
